@@ -71,6 +71,8 @@ class PooledCycleResource(Entity):
         self._available = pool_size
         self._active = 0
         self._queue: deque[Event] = deque()
+        # Hand-off events of dequeued items that already hold a reserved unit
+        self._handoffs: set[Event] = set()
         self._completed = 0
         self._rejected = 0
 
@@ -118,6 +120,12 @@ class PooledCycleResource(Entity):
         )
 
     def handle_event(self, event: Event) -> Generator[float, None, list[Event]] | list[Event]:
+        if event in self._handoffs:
+            # Dequeued item coming back for the unit that was kept for it
+            self._handoffs.discard(event)
+            self._available += 1
+            return self._start_cycle(event)
+
         if self._available > 0:
             return self._start_cycle(event)
 
@@ -166,14 +174,18 @@ class PooledCycleResource(Entity):
         # Try to dequeue next waiting item
         if self._queue and self._available > 0:
             next_event = self._queue.popleft()
-            # Schedule dequeued item for immediate processing
-            results.append(
-                Event(
-                    time=self.now,
-                    event_type=next_event.event_type,
-                    target=self,
-                    context=next_event.context,
-                )
+            # Schedule dequeued item for immediate processing.  The freed unit
+            # stays reserved for it: an arrival landing on this instant must
+            # queue behind it instead of taking the unit and sending the
+            # dequeued item to the back of the queue (or having it rejected).
+            self._available -= 1
+            handoff = Event(
+                time=self.now,
+                event_type=next_event.event_type,
+                target=self,
+                context=next_event.context,
             )
+            self._handoffs.add(handoff)
+            results.append(handoff)
 
         return results
